@@ -74,8 +74,11 @@ RABBIT_MODULE = "RepidProofs.Props.RabbitConservation"   # imports Props/Rabbit.
 RABBIT_THEOREMS = {
     "C01": ["settle_conserves", "pump_conserves", "expireHeads_conserves", "publish_places", "reject_conserves", "ack_places",
             "places_deadLetter", "rabbit_ack_removes", "rabbit_nack_dead_letters", "rabbit_reject_origin",
-            "rabbit_requeue_window_witness", "rabbit_nack_nonnormal_witness"],
-    "C03": ["rabbit_requeue_window_witness"],
+            "rabbit_requeue_window_witness", "rabbit_nack_nonnormal_witness",
+            "nack_spec", "consume_total", "finish_conserves", "rabbit_ledger", "rabbit_ledger_from_empty", "rabbit_no_discard",
+            "rabbit_exactly_one_place"],
+    "C03": ["rabbit_requeue_window_witness", "finish_conserves", "finish_clears"],
+    "C10": ["finish_conserves", "finish_clears"],
     "C05": ["expiry_not_early", "expiry_not_late", "head_blocks", "expire_step_due", "rabbit_head_of_line_witness"],
     "C12": ["onMessage_spec", "rabbit_no_expired_handover", "rabbit_dead_letters_retrievable"],
     "C15": ["insert_after_equal_or_higher", "fifo_two"],
